@@ -38,7 +38,9 @@ pub open spec fn strip1<O, E>(r: core::result::Result<O, E>) -> core::result::Re
 }
 
 /// machine-size assumption on every buffer handed to the public entry points
-pub open spec fn small(n: int) -> bool { n < 0x1000_0000 }
+pub open spec fn small(n: int) -> bool { n < 0x100_0000_0000 }
+/// a single input line / payload handed to a public entry point: shorter than 2^28 bytes
+pub open spec fn line_small(n: int) -> bool { n < 0x1000_0000 }
 
 /// a well-formed bit cursor (what nom's bit parsers hand on)
 pub open spec fn cur_ok(c: (&[u8], usize)) -> bool { c.1 < 8 && (c.1 == 0 || c.0@.len() > 0) && small(c.0@.len() as int) }
@@ -107,4 +109,17 @@ pub proof fn at_self(c: (&[u8], usize))
 {
     reveal(at);
     assert(c.0@ =~= c.0@.subrange(0, c.0@.len() as int));
+}
+
+pub proof fn suf_unfold(c: &[u8])
+    ensures forall|orig: Seq<u8>, p: int| #[trigger] suf(orig, c, p) ==> 0 <= p <= orig.len() && c@ == orig.subrange(p, orig.len() as int),
+{
+    reveal(suf);
+}
+/// a slice is its own suffix at 0 (start of every byte-position chain)
+pub proof fn suf_self(c: &[u8])
+    ensures suf(c@, c, 0),
+{
+    reveal(suf);
+    assert(c@ =~= c@.subrange(0, c@.len() as int));
 }
